@@ -97,6 +97,11 @@ def cases(tier, seed):
             for e1 in EDITS_QUICK[:2]:
                 for e2 in EDITS_QUICK[:2] + EDITS_QUICK[5:6]:
                     out.append({"history": [[list(e1), c1], [list(e2), c2]], "kills": False})
+        # the same transform under another hash function (a new replica of cached content must still be matched)
+        for c1, c2 in (("metro_tr", "blake3_tr"), ("blake3_tr", "metro_tr")):
+            for e1 in (("create", "F5", "V0"), ("set", "F3", "V0")):
+                for e2 in (("create", "F5", "V0"), ("recreate", "F3", "V0"), ("hardlink", "F1", "F1h")):
+                    out.append({"history": [[list(e1), c1], [list(e2), c2]], "kills": False})
         # switching between two transforms that run the same program with different arguments
         few = EDITS_QUICK[:3] + EDITS_QUICK[5:7]
         for c1, c2 in (("metro_head", "metro_head2"), ("metro_head2", "metro_head"), ("metro_head2", "metro_head2")):
